@@ -550,6 +550,36 @@ def run_case(case, ctx):
                     w.update({"pts": pts, "ms": list(ms), "order": order, "trimmed_to": P3})
                     return violated(w, sig, nontrivial, cls + ["trimmed_with_ds"])
                 cls.append("trimmed_with_ds")
+    if (n + int(ms[-1] // 1000)) % 6 == 1:
+        # process-wide setting: the documented origin of the elapsed seconds (ObsTime.UNIX_BASE_YEAR) is changed by the
+        # caller between two computations; a track that straddles a new year is then asked for its speeds -- elapsed
+        # times, hence speeds, do not depend on the origin
+        from tracklib.core.obs_time import ObsTime
+        Y = 1975 + (n * 13 + int(ms[0] // 1000)) % 110
+        base_a = gen.ms_from_fields(Y, 12, 31, 23, 59, 40, 0)
+        ms_a = [base_a - 86400000 * 40 + 10000 * i for i in range(3)]          # a track inside year Y
+        ms_b = [base_a + 10000 * i for i in range(4)]                          # ... and one across new year
+        Pa = [(100.0 * i, 0.0) for i in range(3)]
+        Pb = [(0.0, 50.0 * i) for i in range(4)]
+        old_base = ObsTime.UNIX_BASE_YEAR
+        try:
+            ta = gen.make_track([(q[0], q[1], 0.0) for q in Pa], ms_a)
+            M.call(ta.estimate_speed)
+            va = M.call(ta.getAnalyticalFeature, "speed")
+            ObsTime.UNIX_BASE_YEAR = max(1900, Y - 30 + (n % 3) * 10)
+            tb = gen.make_track([(q[0], q[1], 0.0) for q in Pb], ms_b)
+            M.call(tb.estimate_speed)
+            vb = M.call(tb.getAnalyticalFeature, "speed")
+        finally:
+            ObsTime.UNIX_BASE_YEAR = old_base
+        ctx.monitor("speed.after_the_origin_of_elapsed_seconds_was_changed")
+        w = ({"what": "estimate_speed raised", "raised": va if M.is_raised(va) else vb} if M.is_raised(va) or M.is_raised(vb) else None) \
+            or _check_speed(list(va), Pa, ms_a, ctx, "speed of a track inside one year") \
+            or _check_speed(list(vb), Pb, ms_b, ctx, "speed of a track across new year, after ObsTime.UNIX_BASE_YEAR was changed")
+        if w:
+            w.update({"year": Y, "ms_first_track": ms_a, "ms_second_track": ms_b})
+            return violated(w, sig, nontrivial, cls + ["origin_of_elapsed_seconds_changed"])
+        cls.append("origin_of_elapsed_seconds_changed")
     return held(sig, nontrivial, cls)
 
 
@@ -562,7 +592,8 @@ def classify(case, witness):
 _floors_base = floors
 _FLOORS_EXTRA = {'monitors': {'abs_curv_after_trimming': 1000},
                  'classes': {'track_of_1000+_fixes': 20, 'two_tracks_in_turn': 1000, 'timestamps_edited_in_place': 500, 'timestamp_fields_held_as_numpy_ints': 500,
-                             'consecutive_fixes_on_the_same_day_of_different_months': 150}}
+                             'consecutive_fixes_on_the_same_day_of_different_months': 150,
+                             'origin_of_elapsed_seconds_changed': 500}}
 
 
 def floors(tier):
